@@ -128,6 +128,11 @@ func c17Check(r *mon.Run, t *mon.Tally, wl string, idx int, expr string) {
 // errorSiteFamily: one targeted family per error return site of lexer and parser.
 var errorSiteSeeds = []string{
 	"#", "a#", "é", "aé", "a.é", "\x80", "a\xff", "a ^", "😀", "a😀",
+	// runs of bytes that are no character starts (whatever cuts a piece of the expression out for a message looks for a character
+	// boundary and finds none nearby), at the start, at the end, around the offending position
+	"\x80\x80\x80\x80\x80\x80\x80\x80", "\x80\x80\x80\x80\x80\x80\x80\x80\x80", "'\x80\x80\x80\x80\x80\x80\x80\x80", "'\xbf\xbf\xbf\xbf\xbf\xbf\xbf\xbf\xbf\xbf\xbf\xbf\xbf\xbf\xbf\xbf", "a\x80\x80\x80\x80\x80\x80\x80\x80\x80\x80\x80\x80 b", "\"\x80\x80\x80\x80\x80\x80\x80\x80\x80\x80",
+	"`\x80\x80\x80\x80\x80\x80\x80\x80\x80\x80", "a.b.c \x80\x80\x80\x80\x80\x80\x80\x80\x80\x80\x80\x80\x80\x80\x80\x80\x80\x80\x80\x80 d", "\xe2\x82\xe2\x82\xe2\x82\xe2\x82\xe2\x82", "\xf0\x9f\x98\xf0\x9f\x98\xf0\x9f\x98", "a # \x80\x80\x80\x80\x80\x80\x80\x80\x80\x80\x80\x80\x80\x80\x80\x80\x80",
+	"\x80\x80\x80\x80\x80\x80\x80\x80\x80\x80\x80\x80\x80\x80\x80\x80\x80 # a", "'r' \xbf\xbf\xbf\xbf\xbf\xbf\xbf\xbf\xbf 'r'", "éééééééééééééééé #", "# éééééééééééééééé", "😀😀😀😀😀😀😀😀 ^ 😀😀😀😀😀😀😀😀", "a\xc3", "\xc3", "a.\xe2\x82", "'x' \xf0\x9f",
 	"'abc", "`abc", "\"abc", "a.'x", "'\\", "\"\\", "`\\",
 	"\"\\x\"", "\"\\ud800\"", "`{`", "`nul`", "`1 2`", "``", "`]`",
 	"=", "a=b", "a = b",
